@@ -135,6 +135,40 @@ def function_level(ctx):
                     ctx.disagree("python %s vs model" % op, {"s": s}, impl[op], m)
 
 
+def gen_url(rng):
+    """URL-like strings for the splitting step: absolute http(s) URLs, scheme-less and odd schemes, authority-only forms, leading
+    blanks, tabs / line ends inside, parameters, query and fragment parts"""
+    body = gen_soup(rng)
+    if not body.startswith("/") and rng.random() < 0.7:
+        body = "/" + body
+    tail = rng.choice(["", "", "", ";p", ";a=b;c", "?q=1", "#frag", "?q;x#f", ";x/y;z"])
+    head = rng.choice(["http://127.0.0.1", "http://127.0.0.1:5232", "https://example.org", "HTTP://h", "", "", "//host", "//", "x-y.z+1://h", "ftp://h",
+                       "mailto:", "urn:", "1a://h", "é://h", " http://h", "\thttp://h", "ht\ntp://h", "http:/h", "http:", ":", "a.b:c", "http://u:p@h:1"])
+    return head + body + tail
+
+
+def url_split_level(ctx):
+    """the model's `urlsplit(...).path` (what MOVE and multiget cut a client URL down to) against Python's, and `urlparse(...).path`
+    (used before fix F28) against the model's account of it"""
+    if not ctx.driver:
+        return
+    rng = ctx.rng("urls")
+    cases = [gen_url(rng) for _ in range(ctx.n(2500, 60000))]
+    ans = ctx.driver.ask([{"m": "quote", "op": "urlpath", "s": chars(u)} for u in cases])
+    for u, a in zip(cases, ans):
+        try:
+            sp, pp = urllib.parse.urlsplit(u).path, urllib.parse.urlparse(u).path
+        except ValueError:
+            ctx.case("url:valueerror", sample={"url": u}, key=["url", u], nontrivial=False)
+            continue
+        ctx.case("url:%s" % ("params" if sp != pp else "abs" if "://" in u else "other"), sample={"url": u, "path": sp}, key=["url", u],
+                 nontrivial=sp != u)
+        if unchars(a["split"]) != sp:
+            ctx.disagree("urlsplit(url).path vs model urlsplitPath", {"url": u}, sp, unchars(a["split"]))
+        if unchars(a["parse"]) != pp:
+            ctx.disagree("urlparse(url).path vs model urlparsePath", {"url": u}, pp, unchars(a["parse"]))
+
+
 MODES = ["none", "script_name", "x_script_name", "config_proxy"]
 
 
@@ -256,7 +290,8 @@ def one_case(ctx, rng, mode, prefix, idx):
                 if m != prefix + ipath:
                     ctx.disagree("model multiget decoder on emitted href", case, prefix + ipath, m)
         # MOVE by encoded Destination, then fetch by the decoded request path
-        dest = "http://127.0.0.1" + urllib.parse.quote(prefix + npath)
+        # (a client may leave the sub-delimiters and ":" "@" of RFC 3986 unencoded in a path: "+" is a plus there, not a blank)
+        dest = "http://127.0.0.1" + urllib.parse.quote(prefix + npath, safe=rng.choice(["/", "/", "/+,;=!$&'()*@:", "/+"]))
         st4, _, _ = req("MOVE", ipath, HTTP_DESTINATION=dest)
         st5, _, b5 = req("GET", npath)
         moved_ok = st4 == 201 and st5 == 200 and ("UID:" + uid) in b5
@@ -267,10 +302,26 @@ def one_case(ctx, rng, mode, prefix, idx):
             ctx.violation("MOVE to an encoded Destination does not reach the decoded name (GET of the new name: %s)" % st5,
                           dict(case, destination=dest), "201 then GET 200", [st4, st5], finding=fid)
         if ctx.driver:
-            m = unchars(ctx.driver.ask1({"m": "quote", "op": "dest", "decodes": True,
-                                         "s": chars(urllib.parse.urlparse(dest).path)})["r"])
+            m = unchars(ctx.driver.ask1({"m": "quote", "op": "desturl", "s": chars(dest)})["r"])
             if m != prefix + npath:
-                ctx.disagree("model destination decoder on emitted href", case, prefix + npath, m)
+                ctx.disagree("model destination decoder (split, unquote, sanitize) on the Destination URL", dict(case, destination=dest), prefix + npath, m)
+        # multiget by a href the *client* wrote (absolute or path only, sub-delimiters not encoded) for the moved item
+        if moved_ok:
+            chref = rng.choice(["", "http://127.0.0.1"]) + urllib.parse.quote(prefix + npath, safe=rng.choice(["/", "/+,;=!$&'()*@:"]))
+            bodyc = ('<?xml version="1.0"?><C:calendar-multiget xmlns:D="DAV:" xmlns:C="urn:ietf:params:xml:ns:caldav">'
+                     '<D:prop><D:getetag/><C:calendar-data/></D:prop><D:href>%s</D:href></C:calendar-multiget>' % xml_escape(chref))
+            st8, _, b8 = req("REPORT", cpath, bodyc)
+            good8 = False
+            if st8 == 207:
+                ms8, _, _ = parse_multistatus(b8)
+                good8 = any(isinstance(r, dict) and "C:calendar-data" in r and r["C:calendar-data"][0] == 200 and
+                            ("UID:" + uid) in (r["C:calendar-data"][1].text or "") for r in ms8.values())
+            if not good8:
+                ctx.violation("multiget by a client-written href does not return the item it names", dict(case, href=chref), "200 + data", st8)
+            if ctx.driver:
+                m = unchars(ctx.driver.ask1({"m": "quote", "op": "multigeturl", "s": chars(chref)})["r"])
+                if m != prefix + npath:
+                    ctx.disagree("model multiget decoder (split, unquote, sanitize) on a client-written href", dict(case, href=chref), prefix + npath, m)
         # principal / home-set hrefs
         st6, _, b6 = req("PROPFIND", "/%s/" % user, PROPFIND_PRINCIPAL, HTTP_DEPTH="0")
         if st6 == 207:
@@ -326,5 +377,6 @@ def run(ctx):
     ctx.assumptions += ["strings are sequences of Unicode scalar values (no lone surrogates)",
                         "the front end strips SCRIPT_NAME / proxy prefix on the decoded path"]
     function_level(ctx)
+    url_split_level(ctx)
     end_to_end(ctx)
     locations(ctx)
